@@ -3,6 +3,7 @@
 
 pub mod common;
 pub mod elf;
+pub mod header;
 pub mod info;
 pub mod sweep;
 
@@ -146,6 +147,9 @@ fn dispatch(ctx: &mut Ctx, op: &str, call: &Value) -> Value {
         return v;
     }
     if let Some(v) = info::dispatch(ctx, op, call) {
+        return v;
+    }
+    if let Some(v) = header::dispatch(ctx, op, call) {
         return v;
     }
     out::unsupported()
